@@ -238,6 +238,20 @@ theorem all_done_once (c : Pipe.Cfg) (ids : List Nat) (hn : ids.Nodup) (sched : 
   Pipe.all_done_once ids hn _ (inv_exec c ids hn sched _ (inv_init ids)) hf h0 h1 h2 m hm
 
 open Pipe in
+/-- Adjudication of the late-send race: in a final state a message without completion signal is
+either a `QueueMessage` call that has not returned (not started, or between the `Connected()`
+check and the channel send), or one whose channel send completed after the disconnect request.
+A call that RETURNED before the disconnect request was made is in `sentBefore` (or was signalled
+at once) and is covered by `done_exactly_once`: only calls still in flight at the disconnect
+request can lose their signal. -/
+theorem unsignalled_only_in_flight (c : Pipe.Cfg) (ids : List Nat) (hn : ids.Nodup)
+    (sched : List Choice) (hf : final (exec c (Pipe.init ids) sched) = true) (m : Nat)
+    (hm : m ∈ ids) (h0 : (exec c (Pipe.init ids) sched).done.count m = 0) :
+    m ∈ (exec c (Pipe.init ids) sched).todo ∨ m ∈ (exec c (Pipe.init ids) sched).checked ∨
+      (m ∈ (exec c (Pipe.init ids) sched).outQ ∧ m ∉ (exec c (Pipe.init ids) sched).sentBefore) :=
+  unsignalled_in_flight ids hn _ (inv_exec c ids hn sched _ (inv_init ids)) hf m hm h0
+
+open Pipe in
 /-- The one way a completion signal can be missing: a caller that passed the `Connected()`
 check before the disconnect request and completes its channel send only after `queueHandler`'s
 cleanup loop has finished. The message stays in the buffer; this is outside "queued before the
